@@ -67,6 +67,22 @@ class Recorder:
             fn(proc, *info)
 
 
+class _MyContinue(ps.Continue):
+    pass
+
+
+class _MyWait(ps.Wait):
+    pass
+
+
+class _MyStop(ps.Stop):
+    pass
+
+
+class _MyKill(ps.Kill):
+    pass
+
+
 def _cur_ok(proc):
     return plumpy.Process.current() is proc
 
@@ -176,19 +192,21 @@ class ProgBase(plumpy.Process):
         ret = self.PROGRAM['steps'][i]['ret']
         kind = ret[0]
         self._t('leave', i, kind)
+        # (a program may use its own subclasses of the command classes: a command is what it is an instance of)
+        Continue, Wait, Stop, Kill = (_MyContinue, _MyWait, _MyStop, _MyKill) if self.PROGRAM.get('own_commands') else (ps.Continue, ps.Wait, ps.Stop, ps.Kill)
         if kind == 'cont':
-            return ps.Continue(self._next_fn(i), *copy.deepcopy(ret[1]), **copy.deepcopy(ret[2]))
+            return Continue(self._next_fn(i), *copy.deepcopy(ret[1]), **copy.deepcopy(ret[2]))
         if kind == 'wait':
-            return ps.Wait(self._next_fn(i), ret[1], copy.deepcopy(ret[2]))
+            return Wait(self._next_fn(i), ret[1], copy.deepcopy(ret[2]))
         if kind == 'value':
             return special(ret[1])
         if kind == 'stop':
-            return ps.Stop(ret[1], ret[2])
+            return Stop(ret[1], ret[2])
         if kind == 'unsucc':
             return plumpy.UnsuccessfulResult(ret[1])
         if kind == 'kill':
             # (text None: the bare ``Kill()`` command, without any message)
-            return ps.Kill() if ret[1] is None else ps.Kill(MessageBuilder.kill(text=ret[1]))
+            return Kill() if ret[1] is None else Kill(MessageBuilder.kill(text=ret[1]))
         if kind == 'raise':
             raise ProgError(ret[1])
         raise AssertionError(kind)
